@@ -405,7 +405,51 @@ func checkWriterShapes(c *Ctx, r *Run, impls []writerImpl) {
 		if fd.Type.Params != nil && len(fd.Type.Params.List) == 1 && len(fd.Type.Params.List[0].Names) == 1 {
 			wParam = info.Defs[fd.Type.Params.List[0].Names[0]]
 		}
+		rootFd, rootW := fd, wParam
 		var segs []seg
+		// frames: a plain same-package function that is handed the writer is walked in place of the call, its parameters
+		// standing for the caller's argument expressions
+		type frameT struct {
+			fd      *ast.FuncDecl
+			wParam  types.Object
+			subst   map[types.Object]ast.Expr
+			callPos token.Pos
+			parent  *frameT
+		}
+		var cur *frameT
+		inParent := func(f func()) {
+			saved, sfd, sw := cur, fd, wParam
+			cur = saved.parent
+			if cur != nil {
+				fd, wParam = cur.fd, cur.wParam
+			} else {
+				fd, wParam = rootFd, rootW
+			}
+			f()
+			cur, fd, wParam = saved, sfd, sw
+		}
+		substOf := func(id *ast.Ident) (ast.Expr, bool) {
+			if cur == nil {
+				return nil, false
+			}
+			obj := info.Uses[id]
+			if obj == nil {
+				return nil, false
+			}
+			e, ok := cur.subst[obj]
+			return e, ok
+		}
+		var typeOfExpr func(e ast.Expr) types.Type
+		typeOfExpr = func(e ast.Expr) types.Type {
+			if id, ok := e.(*ast.Ident); ok {
+				if arg, has := substOf(id); has {
+					var t types.Type
+					inParent(func() { t = typeOfExpr(arg) })
+					return t
+				}
+			}
+			return info.TypeOf(e)
+		}
 		// definitions of local identifiers (last assignment textually before use)
 		defOf := func(id *ast.Ident, before token.Pos) ast.Expr {
 			obj := info.Uses[id]
@@ -444,6 +488,11 @@ func checkWriterShapes(c *Ctx, r *Run, impls []writerImpl) {
 		baseIdent = func(e ast.Expr) string {
 			switch x := e.(type) {
 			case *ast.Ident:
+				if arg, has := substOf(x); has {
+					b := ""
+					inParent(func() { b = baseIdent(arg) })
+					return b
+				}
 				return x.Name
 			case *ast.CallExpr:
 				if len(x.Args) == 1 {
@@ -477,6 +526,11 @@ func checkWriterShapes(c *Ctx, r *Run, impls []writerImpl) {
 				}
 				return segVariable, "slice expression"
 			case *ast.Ident:
+				if arg, has := substOf(x); has {
+					k, what, cp := segUnknown, "?", cur.callPos
+					inParent(func() { k, what = classifyBytes(arg, cp, d+1) })
+					return k, what
+				}
 				if t := info.TypeOf(x); t != nil {
 					if arr, ok := t.Underlying().(*types.Array); ok {
 						return segFixed, fmt.Sprintf("[%d]byte", arr.Len())
@@ -497,7 +551,7 @@ func checkWriterShapes(c *Ctx, r *Run, impls []writerImpl) {
 					return segVariable, "make with non-constant length"
 				}
 				if sel, ok := x.Fun.(*ast.SelectorExpr); ok {
-					rt := info.TypeOf(sel.X)
+					rt := typeOfExpr(sel.X)
 					if sel.Sel.Name == "MarshalBinary" && rt != nil {
 						ts := relTypeStr(c, rt)
 						if strings.HasSuffix(ts, "pkg/math/curve.Point") || strings.HasSuffix(ts, "pkg/math/curve.Scalar") {
@@ -646,6 +700,41 @@ func checkWriterShapes(c *Ctx, r *Run, impls []writerImpl) {
 				}
 				segs = append(segs, seg{kind: segUnknown, inLoop: inLoop, what: "nested WriteTo of " + typeStr(rt), pos: call.Pos()})
 				return
+			}
+			// a plain function of the same package that gets the writer: its writes are this writer's writes
+			if id, ok := call.Fun.(*ast.Ident); ok {
+				if fo, isF := info.Uses[id].(*types.Func); isF && fo.Pkg() == w.pkg.Types {
+					nest := 0
+					for f := cur; f != nil; f = f.parent {
+						nest++
+					}
+					if hd := c.Decl(fo); hd != nil && hd.Body != nil && hd.Recv == nil && nest < 3 {
+						var params []types.Object
+						for _, fl := range hd.Type.Params.List {
+							for _, nm := range fl.Names {
+								params = append(params, info.Defs[nm])
+							}
+						}
+						if len(params) == len(call.Args) && !call.Ellipsis.IsValid() {
+							fr := &frameT{fd: hd, subst: map[types.Object]ast.Expr{}, callPos: call.Pos(), parent: cur}
+							for i, a := range call.Args {
+								if aid, ok := a.(*ast.Ident); ok && info.Uses[aid] == wParam {
+									fr.wParam = params[i]
+									continue
+								}
+								fr.subst[params[i]] = a
+							}
+							sfd, sw, scur := fd, wParam, cur
+							if cur == nil {
+								rootFd, rootW = fd, wParam
+							}
+							cur, fd, wParam = fr, hd, fr.wParam
+							walk(hd.Body, inLoop)
+							cur, fd, wParam = scur, sfd, sw
+							return
+						}
+					}
+				}
 			}
 			segs = append(segs, seg{kind: segUnknown, inLoop: inLoop, what: "writer passed to " + types.ExprString(call.Fun), pos: call.Pos()})
 		}
@@ -1428,7 +1517,27 @@ func checkWritersTotal(c *Ctx, r *Run, rule string, impls []writerImpl) {
 						}
 					}
 				}
-				if gov == nil || !zeroTest(gov.Cond) {
+				// a test of what the underlying writer answered (a short count): the writer's failure, not a refused value
+				writerOutcome := gov != nil && dependsOn(gov.Cond, func(v ssa.Value) bool {
+					ex, isE := v.(*ssa.Extract)
+					if !isE {
+						return false
+					}
+					call, isC := ex.Tuple.(*ssa.Call)
+					if !isC {
+						return false
+					}
+					vals := append([]ssa.Value{call.Call.Value}, call.Call.Args...)
+					for _, a := range vals {
+						if prm, isP := a.(*ssa.Parameter); isP && prm.Parent() == fn {
+							if it, isI := prm.Type().Underlying().(*types.Interface); isI && it.NumMethods() == 1 && it.Method(0).Name() == "Write" {
+								return true
+							}
+						}
+					}
+					return false
+				})
+				if gov == nil || !(zeroTest(gov.Cond) || writerOutcome) {
 					cond := "unconditionally"
 					if gov != nil {
 						cond = "when " + path(gov.Cond)
